@@ -18,9 +18,12 @@ package server
 //   Commit          log.SetHighWatermark(newest)
 //   Clean           log.Clean()
 //   Readonly(b)     apiServer.SetStreamReadonly
-//   Sub(id, req)    apiServer.SubscribeInternal, then receive until the
-//                   subscription ends or its loop blocks waiting for the HW
-//   Drain(id)       receive again from a subscription that was waiting
+//   Sub(id, req, n) apiServer.SubscribeInternal, then receive until the
+//                   subscription ends or its loop blocks waiting for the HW, or
+//                   (n >= 0) until n messages were received: the subscriber then
+//                   stops receiving while the loop keeps one message in hand
+//   Drain(id, n)    receive again from a subscription that was waiting or not
+//                   drained
 //   Cancel(id)      subscription.Close()
 // "waiting" is observed, not timed: the commit log calls the verif gate
 // "reader.before_wait_hw" when a committed reader is about to block; after
@@ -188,16 +191,23 @@ func vC10Req(m map[string]interface{}) *client.SubscribeRequest {
 	return req
 }
 
-// receive from the subscription until it ends or its loop is blocked on the HW.
-// armed: the loop was already blocked when the previous call returned, so no new
-// gate signal is to be expected unless something wakes it up.
-func (r *vC10Run) drain(s *vC10Sub, obs *vC10Obs, armed bool) {
+// receive from the subscription until it ends or its loop is blocked on the HW, or
+// until n messages were received (n >= 0; the subscriber then stops receiving: "more").
+// armed: the loop may already be blocked, so no new gate signal is to be expected
+// unless something wakes it up.
+func (r *vC10Run) drain(s *vC10Sub, obs *vC10Obs, armed bool, n int64) {
 	deadline := time.After(vC10Deadline)
 	var grace <-chan time.Time
 	if armed {
 		grace = time.After(r.grace)
 	}
 	for {
+		if n >= 0 && int64(len(obs.Got)) >= n {
+			obs.St = "more"
+			// let the loop read the next message and block handing it over
+			time.Sleep(2 * time.Millisecond)
+			return
+		}
 		select {
 		case m := <-s.sub.Messages():
 			obs.Got = append(obs.Got, vC10Rec{Off: m.Offset, Ts: m.Timestamp, Key: string(m.Key)})
@@ -241,7 +251,7 @@ func (r *vC10Run) publishOne(key string) error {
 
 func (r *vC10Run) step(step map[string]interface{}) vC10Event {
 	a := vStr(step, "a")
-	args := map[string]interface{}{"id": "", "req": map[string]interface{}{}}
+	args := map[string]interface{}{"id": "", "req": map[string]interface{}{}, "n": vIntDef(step, "n", -1)}
 	obs := vC10Obs{A: a, Got: []vC10Rec{}}
 	func() {
 		defer func() {
@@ -317,9 +327,12 @@ func (r *vC10Run) step(step map[string]interface{}) vC10Event {
 			}
 			s := &vC10Sub{sub: sub, cancel: cancel}
 			r.tmp = []*vC10Sub{s}
-			r.drain(s, &obs, false)
+			if req.Reverse {
+				args["n"] = int64(-1)
+			}
+			r.drain(s, &obs, false, int64(args["n"].(int64)))
 			r.tmp = nil
-			if obs.St == "wait" {
+			if obs.St == "wait" || obs.St == "more" {
 				r.subs[id] = s
 			} else {
 				sub.Close()
@@ -333,8 +346,8 @@ func (r *vC10Run) step(step map[string]interface{}) vC10Event {
 				obs.A, a = "Skip", "Skip"
 				return
 			}
-			r.drain(s, &obs, true)
-			if obs.St != "wait" {
+			r.drain(s, &obs, true, vIntDef(step, "n", -1))
+			if obs.St != "wait" && obs.St != "more" {
 				s.sub.Close()
 				s.cancel()
 				delete(r.subs, id)
@@ -439,7 +452,7 @@ func TestVerifSubscribe(t *testing.T) {
 		}
 		run := &vC10Run{t: t, srv: srv, stream: stream, id: b.ID, subs: map[string]*vC10Sub{}, grace: grace,
 			p: vC10WaitLeader(t, srv, stream)}
-		tw.Emit(vC10Event{T: b.ID, A: "Open", Args: map[string]interface{}{"id": "", "req": map[string]interface{}{}},
+		tw.Emit(vC10Event{T: b.ID, A: "Open", Args: map[string]interface{}{"id": "", "req": map[string]interface{}{}, "n": -1},
 			St: run.state(), Obs: vC10Obs{A: "Open", Got: []vC10Rec{}}})
 		for _, step := range b.Steps {
 			tw.Emit(run.step(step))
